@@ -245,8 +245,8 @@ def both_literal_same_pos(methods, holding, spec):
     if spec["second"]:
         return False
     anns = [(m["pos"] + m["kw"])[0]["ann"] for m in methods if m["id"] in holding]
-    if len({R.canon(a) for a in anns}) < len(anns):
-        return False  # identical Literal types: the later registration replaces the earlier one
+    if len({R.canon(sorted(a[1], key=repr)) if a[0] == "lit" else R.canon(a) for a in anns}) < len(anns):
+        return False  # identical Literal types (in any value order): the later registration replaces the earlier one
     return all(a[0] == "lit" for a in anns) and len({repr(sorted(type(S.lit_value(x)).__name__ for x in a[1])) for a in anns}) == 1 \
         and all(len({type(S.lit_value(x)) for x in a[1]}) == 1 for a in anns)
 
